@@ -284,6 +284,19 @@ impl Ord for Key {
         match self.labels.len() {
             0 => cmp::Ordering::Equal,
             1 => self.labels[0].cmp(&other.labels[0]),
+            2 => {
+                // `PartialEq` and `Hash` treat two labels as an unordered pair, canonically ordered by
+                // the whole label (name, then value). Use that same order here, so that keys which
+                // compare equal under `==` also compare as `Equal`, even when both labels share a name.
+                fn ordered(labels: &[Label]) -> (&Label, &Label) {
+                    if labels[0] < labels[1] {
+                        (&labels[0], &labels[1])
+                    } else {
+                        (&labels[1], &labels[0])
+                    }
+                }
+                ordered(&self.labels).cmp(&ordered(&other.labels))
+            }
             n if n < 8 => {
                 let mut labels_sort_map: [u8; 8] = [0, 1, 2, 3, 4, 5, 6, 7];
                 labels_sort_map[..n].sort_by_key(|i| self.labels[*i as usize].key());
